@@ -45,6 +45,7 @@ type Config struct {
 	Reduced  bool     `json:"reduced"` // small mode: first write is ins k1 v1 or del k1 (key / value symmetry)
 	Part     int      `json:"part"`    // small mode: only histories with id % parts == part
 	Parts    int      `json:"parts"`
+	KeySet   int      `json:"keyset"`  // small mode: 0 = ordinary keys, 1 = the engine's reserved names, 2 = prefix keys
 	Compact  bool     `json:"compact"` // fault mode: chronicler history that reaches the inline compaction (>= 100 entries)
 }
 
@@ -97,6 +98,20 @@ func makeKey(spec string) ([]byte, string) {
 		return []byte("kulcs-árvíz-" + arg), "ok"
 	case "long":
 		return []byte(strings.Repeat("L", 300) + arg), "ok"
+	case "meta": // the engine's reserved / internal names, used as ordinary record keys
+		return []byte("__swamp_meta__"), "ok"
+	case "metadata":
+		return []byte("__swamp_metadata__"), "ok"
+	case "slash":
+		return []byte("a/b/../" + arg + "/"), "ok"
+	case "nul":
+		return []byte("k\x00" + arg + "\x00"), "ok"
+	case "nl":
+		return []byte("line\n" + arg + "\r\n"), "ok"
+	case "pfx": // keys that are prefixes of each other: kp, kpx, kpxx, ...
+		n := 0
+		fmt.Sscan(arg, &n)
+		return []byte("kp" + strings.Repeat("x", n)), "ok"
 	case "max": // exactly 65535 bytes
 		return []byte(strings.Repeat("m", 65535-len(arg)) + arg), "ok"
 	case "over1": // 65536 bytes: length field wraps to 0
@@ -152,10 +167,16 @@ func genHistory(r *rand.Rand, id int, level string, cfg *Config) *History {
 	if level == "ch" {
 		h.Named = true // the server always creates named files
 	}
-	okClasses := []string{"short", "short", "bin", "utf", "long", "max"}
+	okClasses := []string{"short", "short", "bin", "utf", "long", "max", "meta", "metadata", "slash", "nul", "nl", "pfx", "pfx"}
 	nk := 2 + r.Intn(3)
+	used := map[string]bool{}
 	for i := 0; i < nk; i++ {
-		h.KeySpec = append(h.KeySpec, fmt.Sprintf("%s:%d", okClasses[r.Intn(len(okClasses))], i))
+		c := okClasses[r.Intn(len(okClasses))]
+		for (c == "meta" || c == "metadata") && used[c] { // these have one concrete key each
+			c = okClasses[r.Intn(len(okClasses))]
+		}
+		used[c] = true
+		h.KeySpec = append(h.KeySpec, fmt.Sprintf("%s:%d", c, i))
 	}
 	if r.Intn(100) < cfg.Bad {
 		bad := []string{"over1", "over", "empty"}
@@ -237,7 +258,9 @@ func genCompact(r *rand.Rand, id int) *History {
 
 // all histories of `n` writes over 2 keys x 2 payloads (ins/del), with every placement of
 // nothing / sync / close+reopen between them; a load after every step
-func genSmall(level string, n int, reduced bool, emit func(*History)) {
+var smallKeys = [][]string{{"short:a", "bin:b"}, {"meta:", "metadata:"}, {"pfx:0", "pfx:1"}}
+
+func genSmall(level string, n int, reduced bool, keyset int, emit func(*History)) {
 	type w struct {
 		op   string
 		k, p int
@@ -253,7 +276,7 @@ func genSmall(level string, n int, reduced bool, emit func(*History)) {
 		if left == 0 {
 			id++
 			s := append(append([]Step{}, steps...), Step{Ev: "close"}, Step{Ev: "load"})
-			emit(&History{ID: id, Level: level, Block: 64, Named: level == "ch", KeySpec: []string{"short:a", "bin:b"},
+			emit(&History{ID: id, Level: level, Block: 64, Named: level == "ch", KeySpec: smallKeys[keyset%len(smallKeys)],
 				PaySpec: []string{"20:1", "90:2"}, Steps: s})
 			return
 		}
@@ -336,7 +359,7 @@ func main() {
 				base = 500000
 			}
 			for n := max(1, cfg.MinOps); n <= cfg.MaxOps; n++ {
-				genSmall(lv, n, cfg.Reduced, func(h *History) {
+				genSmall(lv, n, cfg.Reduced, cfg.KeySet, func(h *History) {
 					if cfg.Parts > 1 && h.ID%cfg.Parts != cfg.Part {
 						return
 					}
